@@ -215,6 +215,14 @@ class DatasetWorld(object):
 
     # ------------------------------------------------------------------ generation
     def gen_step(self, rng):
+        for _ in range(6):
+            try:
+                return self._gen_step(rng)
+            except (IndexError, ValueError, KeyError, Skip):
+                continue        # a generator met a state it has no candidate for (empty choice): draw again
+        return {"op": "meta", "name": "title", "value": "t1"}
+
+    def _gen_step(self, rng):
         cfg = self.cfg
         if getattr(self, "dead", False):
             return None
@@ -226,7 +234,7 @@ class DatasetWorld(object):
             if head.get("op") == "_enum_marker":
                 # the previous base step has been executed: enumerate the rejected assignments for this position
                 self.queue = self.expand_marker(rng) + self.queue
-                return self.gen_step(rng)
+                return self._gen_step(rng)
             return head
         if cfg["mode"] == "enum":
             if self.base_left <= 0:
@@ -976,9 +984,13 @@ class DatasetWorld(object):
         elif how == "rename_keys":
             if not m.vars:
                 raise Skip("empty")
-            ds2 = ds.rename_keys(lambda k: k + "_", inplace=False)
+            suffix = [x for x in ("_", "_r", "_q", "_zz") if not any((k + x) in m.vars for k in m.vars)]
+            if not suffix:
+                raise Skip("every candidate name collides with an existing key")
+            suffix = suffix[0]
+            ds2 = ds.rename_keys(lambda k: k + suffix, inplace=False)
             for k in list(m2.vars):
-                m2.rename_key(k, k + "_")
+                m2.rename_key(k, k + suffix)
         elif how == "rename_axes":
             if not m.used():
                 raise Skip("empty")
